@@ -60,8 +60,9 @@ def main():
         if "save" in opts:
             d = os.path.join(HERE, "seeded", opts["save"])
             os.makedirs(d, exist_ok=True)
-            shutil.copy(patch, os.path.join(d, "patch.diff"))
-            shutil.copy(demo, os.path.join(d, "demo.py"))
+            for src, dst in ((patch, os.path.join(d, "patch.diff")), (demo, os.path.join(d, "demo.py"))):
+                if os.path.abspath(src) != os.path.abspath(dst):
+                    shutil.copy(src, dst)
             meta = {}
             mp = opts.get("meta")
             if mp and os.path.exists(mp):
